@@ -555,6 +555,195 @@ theorem profile_pointwise_density (fl : Flags) (solve : Solver α) (Z : ℕ) (S 
   have h3 : (dens.zip (ne.zip (te.zip nD)))[k]? = some (e, n, t, d) := List.getElem?_zip_eq_some.mpr ⟨he, h2⟩
   simp [profileFromDensity, List.getElem?_map, h3]
 
+/-! ## Proof-deepening pass -/
+
+/-! ### (A) `lsq_linear` by its definition: a least-squares minimiser over the box, instead of the ad-hoc `SolverSpec` -/
+
+/-- `y` minimises the residual sum of squares over the box `lo ≤ x_j ≤ hi` — what `scipy.optimize.lsq_linear` is specified
+to return -/
+def IsBoxLeastSquares (M : ℕ → ℕ → α) (b : ℕ → α) (rows cols : ℕ) (lo hi : α) (y : ℕ → α) : Prop :=
+  (∀ j, j < cols → lo ≤ y j ∧ y j ≤ hi) ∧
+    ∀ x : ℕ → α, (∀ j, j < cols → lo ≤ x j ∧ x j ≤ hi) → sumSq rows cols M b y ≤ sumSq rows cols M b x
+
+/-- **least_squares_zero_residual**: if the box contains an exact solution, every least-squares minimiser over the box is
+an exact solution (this is `SolverSpec`, derived rather than assumed) -/
+theorem least_squares_zero_residual (M : ℕ → ℕ → α) (b : ℕ → α) (rows cols : ℕ) (lo hi : α) (y : ℕ → α)
+    (hy : IsBoxLeastSquares M b rows cols lo hi y)
+    (hex : ∃ x : ℕ → α, (∀ j, j < cols → lo ≤ x j ∧ x j ≤ hi) ∧ ∀ i, i < rows → rowDot cols M x i = b i) :
+    ∀ i, i < rows → rowDot cols M y i = b i := by
+  obtain ⟨x, hbox, hsol⟩ := hex
+  have hx0 : sumSq rows cols M b x = 0 := by
+    unfold sumSq
+    rw [sumTo_congr _ (fun _ => (0 : α)) rows (fun i hi => by rw [hsol i hi]; ring)]
+    exact sumTo_zero rows
+  have hle := hy.2 x hbox
+  have hnn : 0 ≤ sumSq rows cols M b y := sumTo_nonneg _ rows (fun i _ => mul_self_nonneg _)
+  have h0 : sumSq rows cols M b y = 0 := le_antisymm (hx0 ▸ hle) hnn
+  intro i hi
+  have := sumTo_eq_zero_of_nonneg _ rows (fun i _ => mul_self_nonneg _) h0 i hi
+  have := mul_self_eq_zero.mp this
+  linarith
+
+/-- a solver that returns a box least-squares minimiser for every problem meets `SolverSpec` -/
+theorem least_squares_meets_SolverSpec (solve : Solver α)
+    (h : ∀ M b rows cols lo hi, IsBoxLeastSquares M b rows cols lo hi (solve M b rows cols lo hi)) : SolverSpec solve := by
+  intro M b rows cols lo hi hex
+  exact ⟨(h M b rows cols lo hi).1, least_squares_zero_residual M b rows cols lo hi _ (h M b rows cols lo hi) hex⟩
+
+section deepen
+variable {Z : ℕ} {S A : ℕ → α} {tcx : Option (ℕ → α)} {ne nD : α}
+
+/-- the closed form is a least-squares minimiser of the code's problem (non-vacuity of the hypothesis below) -/
+theorem closed_form_is_least_squares (hZ : 1 ≤ Z) (h : PosRates Z S A tcx ne nD) :
+    IsBoxLeastSquares (matEntry Z S A tcx ne nD) (rhsEntry Z ne) (Z + 2) (Z + 1) 0 ne (closedAbundance Z S A tcx ne nD) := by
+  refine ⟨fun j hj => ?_, fun x _ => ?_⟩
+  · unfold closedAbundance
+    have p := (closedFrac_pos h j (by omega)).le
+    have q := closedFrac_le_one h j (by omega)
+    exact ⟨mul_nonneg h.ne_pos.le p, by nlinarith [h.ne_pos]⟩
+  · have h0 : sumSq (Z + 2) (Z + 1) (matEntry Z S A tcx ne nD) (rhsEntry Z ne) (closedAbundance Z S A tcx ne nD) = 0 := by
+      unfold sumSq
+      rw [sumTo_congr _ (fun _ => (0 : α)) (Z + 2) (fun i hi => by rw [closed_form_solves hZ h i hi]; ring)]
+      exact sumTo_zero _
+    rw [h0]
+    exact sumTo_nonneg _ _ (fun i _ => mul_self_nonneg _)
+
+/-- **steady_state_is_the_least_squares_minimiser**: for every Z ≥ 1 and positive rates, *whatever* bounded least-squares
+minimiser `lsq_linear` returns for the matrix the code builds, it is the detailed-balance recurrence — existence
+(`closed_form_is_least_squares`), uniqueness and strict positivity in one statement -/
+theorem steady_state_is_the_least_squares_minimiser (hZ : 1 ≤ Z) (h : PosRates Z S A tcx ne nD) (y : ℕ → α)
+    (hy : IsBoxLeastSquares (matEntry Z S A tcx ne nD) (rhsEntry Z ne) (Z + 2) (Z + 1) 0 ne y) (z : ℕ) (hz : z ≤ Z) :
+    y z = closedAbundance Z S A tcx ne nD z ∧ 0 < y z := by
+  have hsol := least_squares_zero_residual _ _ _ _ _ _ y hy
+    ⟨closedAbundance Z S A tcx ne nD, (closed_form_is_least_squares hZ h).1, fun i hi => closed_form_solves hZ h i hi⟩
+  have e := solution_unique hZ h y hsol z hz
+  refine ⟨e, ?_⟩
+  rw [e]; unfold closedAbundance
+  exact mul_pos h.ne_pos (closedFrac_pos h z hz)
+
+/-- **solution_unique_without_last_row**: the last balance row is redundant — the first `Z` balance rows and the
+normalisation row already determine the solution (so does any solver that drops a row) -/
+theorem solution_unique_without_last_row (hZ : 1 ≤ Z) (h : PosRates Z S A tcx ne nD) (x : ℕ → α)
+    (hx : ∀ i, i < Z + 2 → i ≠ Z → rowDot (Z + 1) (matEntry Z S A tcx ne nD) x i = rhsEntry Z ne i)
+    (z : ℕ) (hz : z ≤ Z) : x z = closedAbundance Z S A tcx ne nD z := by
+  apply solution_unique hZ h x _ z hz
+  intro i hi
+  by_cases hiZ : i = Z
+  · -- the last row is minus the sum of the rows above it
+    subst hiZ
+    obtain ⟨m, rfl⟩ : ∃ m, i = m + 1 := ⟨i - 1, by omega⟩
+    have hne := h.ne_pos.ne'
+    have flux : ∀ k, k < m + 1 → S k * x k = recTot A tcx ne nD (k + 1) * x (k + 1) := by
+      intro k
+      induction k with
+      | zero =>
+        intro _
+        have := hx 0 (by omega) (by omega)
+        rw [rowDot_first] at this
+        have e : rhsEntry (m + 1) ne 0 = 0 := by simp [rhsEntry]
+        rw [e] at this
+        have := (mul_eq_zero.mp this).resolve_left hne
+        linarith
+      | succ k ih =>
+        intro hk
+        have h1 := ih (by omega)
+        have := hx (k + 1) (by omega) (by omega)
+        rw [rowDot_interior (m + 1) k hk] at this
+        have e : rhsEntry (m + 1) ne (k + 1) = 0 := by simp [rhsEntry]; omega
+        rw [e] at this
+        have := (mul_eq_zero.mp this).resolve_left hne
+        linarith
+    rw [rowDot_last, flux m (by omega)]
+    simp [rhsEntry]
+  · exact hx i hi hiZ
+
+end deepen
+
+/-! ### (B) species dictionaries: the result does not depend on the insertion order -/
+
+/-- **dictToArray_perm**: `array[key] = value` over the items of a dictionary (distinct keys) gives the same array whatever
+the insertion order -/
+theorem dictToArray_perm (n : ℕ) (l l' : List (ℕ × α)) (hp : l.Perm l') (hk : (l.map Prod.fst).Nodup) :
+    dictToArray n l = dictToArray n l' := by
+  unfold dictToArray
+  apply List.Perm.foldl_eq' hp
+  intro x hx y hy a
+  by_cases hxy : x = y
+  · subst hxy; rfl
+  · have hne : x.1 ≠ y.1 := by
+      intro he
+      apply hxy
+      have := List.inj_on_of_nodup_map hk hx hy he
+      exact this
+    exact List.set_comm x.2 y.2 hne
+
+/-- … and holds, at every key below the length, the value stored under that key -/
+theorem dictToArray_get (n : ℕ) (l : List (ℕ × α)) (hk : (l.map Prod.fst).Nodup) (k : ℕ) (v : α)
+    (hmem : (k, v) ∈ l) (hkn : k < n) : (dictToArray n l)[k]? = some v := by
+  -- move the item to the end of the insertion order (allowed by `dictToArray_perm`), then the last write wins
+  obtain ⟨l₁, l₂, rfl⟩ := List.append_of_mem hmem
+  have hp : (l₁ ++ (k, v) :: l₂).Perm ((l₁ ++ l₂) ++ [(k, v)]) := by
+    have := (List.perm_middle (a := (k, v)) (l₁ := l₁) (l₂ := l₂))
+    exact this.trans (List.perm_append_singleton (k, v) (l₁ ++ l₂)).symm
+  rw [dictToArray_perm n _ _ hp hk]
+  unfold dictToArray
+  rw [List.foldl_append]
+  simp only [List.foldl_cons, List.foldl_nil]
+  have hlen : ∀ (its : List (ℕ × α)) (a : List α), (its.foldl (fun a kv => a.set kv.1 kv.2) a).length = a.length := by
+    intro its
+    induction its with
+    | nil => intro a; rfl
+    | cons it its ih => intro a; simp [List.foldl_cons, ih]
+  rw [List.getElem?_set_self]
+  rw [hlen]; simpa using hkn
+
+/-- **match_independent_of_insertion_order**: neutrality matching with the other species given as `{charge: density}`
+dictionaries returns the same densities for every insertion order of every dictionary -/
+theorem match_independent_of_insertion_order (fl : Flags) (solve : Solver α) (Z : ℕ) (S A C : ℕ → α) (donor : Bool)
+    (ne nD : α) (ds ds' : List (List (ℕ × α)))
+    (h : List.Forall₂ (fun d d' => d.Perm d' ∧ (d.map Prod.fst).Nodup) ds ds') (z : ℕ) :
+    entryMatch fl solve Z S A C donor ne nD (speciesOfDicts ds) z
+      = entryMatch fl solve Z S A C donor ne nD (speciesOfDicts ds') z := by
+  have : speciesOfDicts ds = speciesOfDicts ds' := by
+    unfold speciesOfDicts
+    induction h with
+    | nil => rfl
+    | cons hd _ ih =>
+      simp only [List.map_cons]
+      rw [ih, hd.1.length_eq, dictToArray_perm _ _ _ hd.1 hd.2]
+  rw [this]
+
+/-! ### (C) array calls are point-wise: no dependence on the other profile points -/
+
+/-- **profile_point_independence**: the result at index `k` is the same for two profile calls that agree at index `k`,
+whatever the other points are (a memo across points keyed on part of the arguments would violate this) -/
+theorem profile_point_independence (fl : Flags) (solve : Solver α) (Z : ℕ) (S A C : α → α → ℕ → α) (donor : Bool)
+    (ne te nD ne' te' nD' : List α) (k : ℕ) (n t d : α)
+    (hn : ne[k]? = some n) (ht : te[k]? = some t) (hd : nD[k]? = some d)
+    (hn' : ne'[k]? = some n) (ht' : te'[k]? = some t) (hd' : nD'[k]? = some d) :
+    (profileFractional fl solve Z S A C donor ne te nD)[k]? = (profileFractional fl solve Z S A C donor ne' te' nD')[k]? := by
+  rw [profile_pointwise fl solve Z S A C donor ne te nD k n t d hn ht hd,
+    profile_pointwise fl solve Z S A C donor ne' te' nD' k n t d hn' ht' hd']
+
+/-- a scalar call is the one-point profile call (the reference of the `differs-from-scalar-call` oracle) -/
+theorem profile_scalar_is_point (fl : Flags) (solve : Solver α) (Z : ℕ) (S A C : α → α → ℕ → α) (donor : Bool) (n t d : α) :
+    profileFractional fl solve Z S A C donor [n] [t] [d] = [entryFractional fl solve Z (S n t) (A n t) (C n t) donor n d] := rfl
+
+/-- … and the profile result has one entry per point -/
+theorem profile_length (fl : Flags) (solve : Solver α) (Z : ℕ) (S A C : α → α → ℕ → α) (donor : Bool) (ne te nD : List α)
+    (h1 : te.length = ne.length) (h2 : nD.length = ne.length) :
+    (profileFractional fl solve Z S A C donor ne te nD).length = ne.length := by
+  simp [profileFractional, h1, h2]
+
+/-- non-vacuity: two insertion orders of a three-charge dictionary, and the array they both give -/
+example : dictToArray 3 [((2 : ℕ), (7 : ℚ)), (0, 5), (1, 6)] = [5, 6, 7] ∧
+    dictToArray 3 [((0 : ℕ), (5 : ℚ)), (1, 6), (2, 7)] = [5, 6, 7] := by decide +kernel
+
+example : List.Forall₂ (fun d d' => d.Perm d' ∧ (d.map Prod.fst).Nodup)
+    [[((2 : ℕ), (7 : ℚ)), (0, 5), (1, 6)]] [[(0, 5), (1, 6), (2, 7)]] := by
+  refine List.Forall₂.cons ⟨?_, by decide⟩ List.Forall₂.nil
+  decide
+
 /-! ### non-vacuity -/
 
 /-- the solver contract is satisfiable (an exact minimiser exists) -/
